@@ -13,6 +13,13 @@ def pollute(P):
             other.create(t)
         except Exception:  # noqa - e.g. `=/` on a name without definition in this class
             pass
+    # the default namespace (the base class `Rule`, as in the README) defining rules named like rules of the ABNF reader
+    # that are not core rules: the reader class has its own rules of these names and must keep resolving to them
+    for t in ['comment = "zz"', 'option = "zz"', 'group = "zz"', 'repeat = "zz"', 'num-val = "zz"', 'c-nl = "zz"', 'elements = "zz"']:
+        try:
+            P.Rule.create(t)
+        except Exception:  # noqa
+            pass
     # a grammar extending core rules while their (documented, language-preserving for one-character alternatives)
     # first-match flag is set: the extension must still land in the extending class only
     flagged = type("FlagGrammar", (P.Rule,), {})
